@@ -51,6 +51,10 @@ def build_verus(run):
         proof {
             let cu = c as u32;
             assert(cu < 0x20 ==> (cu >> 4) < 16 && (cu & 0xF) < 16 && ((cu >> 4) * 16 + (cu & 0xF)) == cu) by(bit_vector);
+            // general facts about nibbles (so that a changed guard or mask is decided instead of exhausting the solver)
+            assert(((cu >> 4) & 0xF) < 16 && (cu & 0xF) < 16 && ((cu >> 8) & 0xF) < 16 && ((cu >> 12) & 0xF) < 16) by(bit_vector);
+            assert(cu < 0x100 ==> ((cu >> 4) & 0xF) == (cu >> 4)) by(bit_vector);
+            assert(cu < 0x10000 ==> ((cu >> 12) & 0xF) * 4096 + ((cu >> 8) & 0xF) * 256 + ((cu >> 4) & 0xF) * 16 + (cu & 0xF) == cu) by(bit_vector);
         }""", where='after')
         # end of the loop body: whatever this iteration appended is a run of JSON string characters denoting exactly c
         ps.loop_body_end(0, """        proof {
